@@ -117,6 +117,12 @@ func VxB_SWR() {
 
 	okind := vxChoice("bg.kind", 5)
 	slow := vxChoice("bg.slow", 2) == 1
+	// the entry may be evicted (by another process, an unsafe request, a cleaner) between
+	// the foreground read and the background goroutine's own read
+	evicted := vxChoice("bg.evicted", 2) == 1
+	if evicted {
+		w.conn.evictKey, w.conn.evictAfter = id, 2
+	}
 	timeoutSeen := time.Duration(-1)
 	var bgReq *http.Request
 	w.origin.script = func(n int, r *http.Request) (*http.Response, error) {
@@ -169,7 +175,7 @@ func VxB_SWR() {
 	vxRunAll() // background work runs to completion (or blocks for ever)
 
 	vxAssert(vxBgPanics() == 0, "C10/background-panic")
-	vxAssert(len(w.origin.calls) == 1, "C20/exactly-one-revalidation-request")
+	vxAssert(len(w.origin.calls) == 1 || (evicted && len(w.origin.calls) == 0), "C20/exactly-one-revalidation-request")
 	vxAssert(vxLiveGoroutines() == 0, "C20/goroutine-outlives-background-request")
 	if bgReq != nil {
 		vxAssert((bgReq.Header.Get("If-None-Match") == "\"v1\"") == hasETag, "C20/revalidation-conditional-on-etag")
@@ -187,6 +193,10 @@ func VxB_SWR() {
 	_, ims := reqHdr["If-Modified-Since"]
 	vxAssert(len(reqHdr) == 2 && !inm && !ims, "C16/caller-request-modified")
 
+	if evicted {
+		vxCover("swr/evicted-in-flight")
+		return // nothing left to freshen: whatever the background work did, it did not touch the caller's objects
+	}
 	// C08: the background result is written back (unless the timeout elapsed first)
 	refs, _ := w.rt.cache.GetRefs(vxURLKey)
 	if vxLastCtx != nil && vxLastCtx.err == context.DeadlineExceeded {
